@@ -681,6 +681,13 @@ func runC15Op(c Case, m *Model) (v Verdict) {
 			return
 		}
 		wellFormed(msg, t.typ, len(d))
+		if len(d) < 70000 {
+			pre := strings.Repeat("x", len(d)+3)
+			var ok2 bool
+			if p := try(func() { ok2 = t.get(msg, &pre) }); p != "" || !ok2 || pre != string(d) {
+				oracle("Meta<%s>(%d bytes) read into a variable that held a longer text before: panic %q ok=%v, %d bytes", t.name, len(d), p, ok2, len(pre))
+			}
+		}
 		if !ok || got != string(d) {
 			oracle("Meta<%s>(%d bytes) read back by its accessor: ok=%v, %d bytes, first difference at %d", t.name, len(d), ok, len(got), c15FirstDiff([]byte(got), d))
 		}
@@ -773,6 +780,21 @@ func runC15Op(c Case, m *Model) (v Verdict) {
 		wellFormed(msg, 0x7F, len(d))
 		if len(d) > 0 && (!ok || !bytes.Equal(got, d)) {
 			oracle("MetaSequencerData(%d bytes) read back: ok=%v, %d bytes, first difference at %d", len(d), ok, len(got), c15FirstDiff(got, d))
+		}
+		// the caller's variable already holds something (longer, equally long, shorter, spare capacity): the result is the payload all the same
+		if len(d) > 0 && len(d) < 70000 {
+			for _, pre := range [][]byte{bytes.Repeat([]byte{0xEE}, len(d)+5), bytes.Repeat([]byte{0xEE}, len(d)), bytes.Repeat([]byte{0xEE}, len(d)/2), make([]byte, 0, len(d)+9)} {
+				out := pre
+				var ok2 bool
+				if p := try(func() { ok2 = msg.GetMetaSeqData(&out) }); p != "" {
+					oracle("panic with a used out variable: %s", p)
+					break
+				}
+				if !ok2 || !bytes.Equal(out, d) {
+					oracle("MetaSequencerData(%d bytes) read into a variable that held %d bytes (cap %d) before: ok=%v, %d bytes, first difference at %d", len(d), len(pre), cap(pre), ok2, len(out), c15FirstDiff(out, d))
+					break
+				}
+			}
 		}
 		g := "no"
 		if ok {
